@@ -283,13 +283,8 @@ class ExprMixin:
                 hi = self.static_int(a.left)
                 lo = self.static_int(a.right)
                 if a.dir != "downto":
-                    if hi > lo or (hi == lo):
-                        # "x(3 to 5)" on a downto vector: direction mismatch is an error unless null/one elem
-                        if hi == lo:
-                            pass
-                        else:
-                            self.err(f"slice direction 'to' does not match the object's 'downto' range")
-                    hi, lo = lo, hi
+                    # LRM 8.5: the direction of the discrete range must be that of the prefix (all emitted vectors are 'downto')
+                    self.err(f"slice direction 'to' does not match the object's 'downto' range", "slice-direction")
                 if hi < lo:
                     self.err(f"null slice ({hi} downto {lo})")
                 if hi >= ty[2] or lo < 0:
